@@ -21,6 +21,7 @@ def _run(ctx, n, nops, rep, concurrent=None):
     rep.violations[:] = [v for v in rep.violations if v['signature']['kind'] in MINE]
     # the same property through the tool as a user runs it: fresh `python -m replicat` processes, a repository on disk, real faults
     cli_hist.run_scenarios(ctx, rep, {'plain': ctx.scale(6, 60)}, CLI_MINE)
+    cli_hist.linked_shards_probe(ctx, rep, CLI_MINE + ('referenced_chunk_missing', 'snapshot_not_listed', 'gc_incomplete'))
     # and over the remote adapters (B2 by bucket name and by bucket id, S3-compatible) against in-memory fake services
     remote_hist.remote_probe(ctx, rep, ('exception', 'repeat_uploaded_payload', 'not_exact'))
 
